@@ -492,6 +492,7 @@ func TestReplay(t *testing.T) {
 		Metrics *metricsCase `json:"metrics"`
 		CMap    *cmapCase    `json:"cmap"`
 		Proc    *procCase    `json:"proc"`
+		Reread  *rereadCase  `json:"reread"`
 	}
 	if err := json.Unmarshal(rc.Case, &c); err != nil {
 		t.Fatal(err)
@@ -508,6 +509,8 @@ func TestReplay(t *testing.T) {
 				return checkCMap(c.CMap)
 			case c.Proc != nil:
 				return checkProcesses(c.Proc)
+			case c.Reread != nil:
+				return checkReread(c.Reread)
 			}
 			return "empty replay case"
 		})
@@ -518,4 +521,92 @@ func TestReplay(t *testing.T) {
 			break
 		}
 	}
+}
+
+// ---------------------------------------------------------------------------
+// repeated reads of independently written fonts, incl. nested composites
+
+type rereadCase struct {
+	Data []byte `json:"data"`
+}
+
+func checkReread(c *rereadCase) string {
+	f1, err1 := type1.Read(bytes.NewReader(c.Data))
+	for r := 1; r < repeats; r++ {
+		f2, err2 := type1.Read(bytes.NewReader(c.Data))
+		if (err1 == nil) != (err2 == nil) {
+			return fmt.Sprintf("reading the same bytes gives err=%v, then err=%v", err1, err2)
+		}
+		if err1 == nil && !reflect.DeepEqual(f1, f2) {
+			return fmt.Sprintf("reading the same bytes gives a different font on invocation %d: %s", r+1, t1gen.DiffFont(f1, f2, t1gen.Tol{}))
+		}
+	}
+	return ""
+}
+
+// nestedSeacFont builds a font whose composites refer to other composites
+// (chains of 2-6), laid out by the independent writer.
+func nestedSeacFont(t *rapid.T) []byte {
+	i := func(v int) t1ref.Num { return t1ref.I(int32(v)) }
+	box := func(name string, x, y int) *t1ref.Glyph {
+		return &t1ref.Glyph{Name: name, SBX: i(10), WX: i(500 + x), Segs: []t1ref.Seg{
+			{Kind: t1ref.SegMove, D: []t1ref.Num{i(x), i(y)}}, {Kind: t1ref.SegLine, D: []t1ref.Num{i(100), i(0)}},
+			{Kind: t1ref.SegLine, D: []t1ref.Num{i(0), i(100)}}, {Kind: t1ref.SegClose}}}
+	}
+	m := &t1ref.Font{FontName: "Nested", LenIV: -1, EncKind: t1ref.EncStandard}
+	m.Glyphs = []*t1ref.Glyph{box(".notdef", 0, 0), box("A", 5, 5), box("acute", 7, 300), box("grave", 9, 320)}
+	names := []string{"B", "C", "D", "E", "F", "G", "H"}
+	code := func(n string) int {
+		for k, s := range t1ref.StandardEncoding {
+			if s == n {
+				return k
+			}
+		}
+		return 0
+	}
+	n := rapid.IntRange(2, 6).Draw(t, "chain")
+	prev := "A"
+	var comps []*t1ref.Glyph
+	for k := 0; k < n; k++ {
+		acc := []string{"acute", "grave", prev}[rapid.IntRange(0, 2).Draw(t, "accent")]
+		g := &t1ref.Glyph{Name: names[k], SBX: i(10), WX: i(600 + k), Seac: &t1ref.Seac{ASB: i(10), ADX: i(20 * (k + 1)), ADY: i(30 * (k + 1)), Base: code(prev), Accent: code(acc)}}
+		comps = append(comps, g)
+		prev = names[k]
+	}
+	// definition order in the file is drawn as well
+	for len(comps) > 0 {
+		k := rapid.IntRange(0, len(comps)-1).Draw(t, "order")
+		m.Glyphs = append(m.Glyphs, comps[k])
+		comps = append(comps[:k], comps[k+1:]...)
+	}
+	return t1ref.Write(m, t1ref.DefaultLayout(rapid.IntRange(0, 3).Draw(t, "container")))
+}
+
+func TestP3Reread(t *testing.T) {
+	rec := ev.New("C17", "reread")
+	defer rec.Finish(t)
+	rec.Rule(fmt.Sprintf("fonts laid out by the independent writer (model fonts of the C06 generator with subrs/flex/several accented composites, and fonts whose composites refer to other composites in chains of 2-6 defined in a drawn order - not conforming, but any accepted input must read deterministically) are read %d times from the same bytes; all results must be deep-equal. Non-trivial: font has >= 2 composites; distinct by bytes.", repeats))
+	ev.SetupRapid(900, 32000)
+	rapid.Check(t, func(t *rapid.T) {
+		var data []byte
+		multi := false
+		if rapid.Bool().Draw(t, "nested") {
+			data = nestedSeacFont(t)
+			multi = true
+			rec.Class("nested-composites")
+		} else {
+			m, feat := t1gen.GenModel(t, t1gen.ModelOpts{SeacOwnEncoding: true, Unusual: true})
+			l, _ := t1gen.GenLayout(t)
+			data = t1ref.Write(m, l)
+			multi = feat["seac-several"]
+		}
+		c := &rereadCase{Data: data}
+		rec.Eval(1)
+		if multi {
+			rec.NonTrivialHash(ev.Hash(string(data)))
+		}
+		if msg := ev.Safe(func() string { return checkReread(c) }); msg != "" {
+			rec.Fail(t, msg, map[string]any{"reread": c})
+		}
+	})
 }
